@@ -5,7 +5,7 @@
    restoring Guard's Drop runs on unwinding and that nothing else calls tcsetattr -- is checked by the
    rawmode stream with tcgetattr on a real pty, not proved. *)
 From Coq Require Import List Bool.
-From RL Require Import RawMode RawModeProofs.
+From RL Require Import RawMode RawModeProofs RawSteps RawStepsProofs.
 Import ListNotations.
 
 Theorem C16_read_restores :
@@ -29,6 +29,44 @@ Theorem C16_reads_restore :
   /\ length xs = length rs.
 Proof. exact reads_restore. Qed.
 Print Assumptions C16_reads_restore.
+
+(* The step-level model (Model/RawSteps.v): the statements of readline_with, the Guard, enable_raw_mode, disable_raw_mode and
+   the Suspend command in their order, every write consulting an oracle that may refuse it. For EVERY list of actions of the
+   editing loop (output, suspend episodes during which the application or the shell changes the settings at will), every
+   way out and every pattern of failing writes, the settings after the read are those in force before it. *)
+Theorem C16_steps_restore_settings :
+  forall (settings : Type) (raw_of : settings -> settings) (paste : bool) (acts : list (action settings)) (x : exit)
+         (t : term settings) (oracle : list bool),
+  t_tio settings (fst (fst (read_steps settings raw_of paste acts x t oracle))) = t_tio settings t.
+Proof. exact read_steps_restores. Qed.
+Print Assumptions C16_steps_restore_settings.
+
+(* ... and when the terminal takes what is written, what it saw of paste switching is on off, once for the read and once more
+   per suspend episode: balanced, alternating, ending on off; the read ends the way the loop ended *)
+Theorem C16_steps_paste_balanced :
+  forall (settings : Type) (raw_of : settings -> settings) (acts : list (action settings)) (x : exit)
+         (t : term settings) (oracle : list bool),
+  all_ok oracle ->
+  let '(t', res, _) := read_steps settings raw_of true acts x t oracle in
+  res = OExit x
+  /\ switches (t_out settings t') = switches (t_out settings t) ++ pairs (S (suspends settings acts)).
+Proof. exact read_steps_paste. Qed.
+Print Assumptions C16_steps_paste_balanced.
+
+(* with bracketed paste disabled nothing is ever switched, whatever the writes do *)
+Theorem C16_steps_no_paste :
+  forall (settings : Type) (raw_of : settings -> settings) (acts : list (action settings)) (x : exit)
+         (t : term settings) (oracle : list bool),
+  switches (t_out settings (fst (fst (read_steps settings raw_of false acts x t oracle)))) = switches (t_out settings t).
+Proof. exact read_steps_nopaste. Qed.
+Print Assumptions C16_steps_no_paste.
+
+(* non-vacuity: two suspend episodes (the settings changed while stopped), the repaint that ends the second episode refused: the read ends with an I/O error, paste still switched off *)
+Example C16_steps_example :
+  let acts := [AWrite nat; ASuspend nat (fun s => s + 5); ASuspend nat (fun s => s * 2); AWrite nat] in
+  let '(t', res, _) := read_steps nat (fun s => s + 100) true acts XLine (mkTerm nat 7 []) [true; true; true; true; true; true; true; false] in
+  t_tio nat t' = 7 /\ res = OIoError /\ switches (t_out nat t') = [true; false; true; false; true; false].
+Proof. vm_compute. repeat split. Qed.
 
 (* non-vacuity: two reads (a panic, then a line) with the settings changed in between *)
 Example C16_example :
